@@ -35,6 +35,7 @@ let res f = function Val v -> f v | Trap -> "!trap" | Unsafe -> "!unsafe"
 exception PTrap
 exception PUnsafe
 exception PFuel
+exception Decline
 
 let zlen l = z_of_int (List.length l)
 let zlt a b = Z.ltb a b
@@ -160,6 +161,13 @@ let () =
            | "upper" -> hex (nl_upper (s 0))
            | "lower" -> hex (nl_lower (s 0))
            | "utf8char" -> res hex (nl_utf8char (n 0))
+           | "fmt0" | "fmti" | "fmtii" | "fmts" | "fmtis" | "fmtsi" ->
+             (* arguments: integers in decimal, strings as x-hex; float conversions are not modelled *)
+             let cfloat _ _ = raise Decline in
+             let fargs = List.map (fun t -> if t = "e" || (String.length t > 0 && t.[0] = 'x') then AStr (bytes_of_tok t) else AInt (z_of_dec t)) (List.tl args) in
+             let nlv = res hex (nl_format cfloat (s 0) fargs) in
+             let luav = (match lua_format cfloat (s 0) fargs with LVal v -> hex v | LErr -> "!error") in
+             nlv ^ " || " ^ luav
            | "packsize" -> res dec_of_z (nl_packsize (s 0))
            | "packsize_luaspec" -> (match lua_packsize (s 0) with LVal v -> dec_of_z v | LErr -> "!error")
            | "utf8len" ->
@@ -240,6 +248,6 @@ let () =
            | "min3" -> dec_of_z (nl_min_l (n 0) [n 1; n 2])
            | "floor" | "ceil" | "tointeger" -> dec_of_z (n 0)
            | _ -> "?")
-        with e -> "!exn " ^ Printexc.to_string e
+        with Decline -> "?" | e -> "!exn " ^ Printexc.to_string e
       in
       print_string out; print_newline ())
